@@ -207,6 +207,9 @@ func genFragments() (gs, gh []frag) {
 		{[]string{"match {", "\tremote_ip !private_ranges", "\tsni c.example.com", "}"}, "match", map[string]any{"remote_ip": ipRanges([]string{"!private_ranges"}), "sni": strs("c.example.com")}},
 		{[]string{"cert_selection {", "\tany_tag t1 t2", "}"}, "certificate_selection", map[string]any{"any_tag": strs("t1", "t2")}},
 		{[]string{"cert_selection {", "\tserial_number 123456789012", "\tsubject_organization org", "}"}, "certificate_selection", map[string]any{"serial_number": strs("123456789012"), "subject_organization": strs("org")}},
+		// serial numbers are decimal big integers, however they are padded
+		{[]string{"cert_selection {", "\tserial_number 0123 0017 100", "}"}, "certificate_selection", map[string]any{"serial_number": strs("123", "17", "100")}},
+		{[]string{"cert_selection {", "\tserial_number 000000000000000000340282366920938463463374607431768211456", "}"}, "certificate_selection", map[string]any{"serial_number": strs("340282366920938463463374607431768211456")}},
 	}
 	policy := func(seq []opt) (lines []string, js map[string]any) {
 		js = map[string]any{}
